@@ -150,7 +150,7 @@ def CS.adv (s : CS) (t : Nat) : Option CS :=
       some ({ s1 with ths := s1.ths.set t { th with pc := .dropAfterDecision true } })
     | .dropClone, .dropAfterDecision _ =>
       let s1 := if s.atomicDrop then s else { s with ncStrong := s.ncStrong - 1 }
-      some (setTh { s1 with stStrong := s1.stStrong - 1 } { th with pc := .finished })
+      some (setTh { s1 with stStrong := s1.stStrong - 1 } { th with pc := .finished, res := .none })
     -- upgrade
     | .upgrade, .start =>
       if s.stStrong = 0 then some (setTh s { th with pc := .finished, res := .upgraded false })
@@ -178,7 +178,7 @@ def CS.adv (s : CS) (t : Nat) : Option CS :=
                            ths := wakeAll s.ths s.wakers }
         some ({ s1 with ths := s1.ths.set t { th with pc := .writeAfterNotify s.value } })
     | .update _, .writeAfterNotify _ =>
-      some (setTh { s with writer := none } { th with pc := .finished })
+      some (setTh { s with writer := none } { th with pc := .finished, res := .none })
     -- `next_now`: subscriber.rs — outer read lock, `version()` (metadata read lock), value; no pause point: one segment
     | .nextNow, .start =>
       if s.writer.isSome || s.metaHeld.isSome then none
